@@ -84,6 +84,21 @@ CHECKS = {
   text="Every label of parseProtocolVersion and clWrapper.UnmarshalText is folded: documented spellings select the constant they name, distinct names distinct values, labels are lower case under a lower-cased input, unknown names are refused (exhaustive over the finite label sets). Run() is simulated for 36 boundary cells (heartbeat vs idle, connection count, all version x max-version pairs, unknown names): exactly the inconsistent ones are refused before a proxy is built; after any reported configuration error no path builds/starts the proxy and the exit status is non-zero; options are tested only after the configuration file was merged; buildNodes refuses the three invalid peer configurations and its error reaches the exit status.",
   note="Trusted: kong and yaml parsing. Not covered: option values other than the folded cells, environment handling.",
   ref="DESIGN.md §4 C20"),
+ "C14": dict(
+  technique="static analysis: who-may-call and dominance-guarded mutator inventory of the event registry, structural fan-out rules, typestate simulation of the cluster control loop (every received event reaches the type dispatch), subscription chain checks",
+  text="Decided: clients enter the event registry only from the REGISTER arm under a SCHEMA_CHANGE test with the registering connection, and leave it when their connection closes; Proxy.OnEvent writes only for SchemaChangeEvent, one frame per ranged client on stream -1 with the event's message, iteration never stops early; in the cluster's control loop no path drops a received event before the dispatch on its type, a schema change notifies each listener once with that message, topology/status events notify nobody; the proxy is registered as listener exactly once, control connections have the cluster as handler and register for all three event kinds on both handshake paths; backend EVENT frames go to the handler, never to pending requests.",
+  note="Not covered: interleavings of events with connects/disconnects, TCP delivery.",
+  ref="DESIGN.md §4 C14"),
+ "C16": dict(
+  technique="static analysis: typestate simulation of both maintenance loops (pending-flag => timer armed invariant at the loop header, Reset after and only after a successful reconnect, delay provenance), dominance/clamp rule on the back-off function, structural rules on mergeHosts / Session.OnEvent / reconnect, who-may-call + guard rules on the outage clock and readiness handler",
+  text="Structural parts only (timing and numeric bounds are not decided): NextDelay returns maxDelay or a value compared with and capped by it, Reset zeroes the attempts; both maintenance loops take reconnect delays from the policy, reset it after and only after success, and never have a pending flag set while its timer is not armed; topology and status-UP events arm a refresh which re-reads hosts; mergeHosts emits Add for new and Remove for vanished keys and adopts the list; sessions create/cancel pools accordingly; fail-over rotates hosts; the outage clock starts only where the control connection is found closed and is cleared only after a successful connect, OutageDuration is zero iff cleared, readiness is 200 iff outage < timeout; only live pools are stored.",
+  note="Not covered: 'within the refresh window', heartbeat/idle timing, lower bound and overflow of the back-off arithmetic (numeric/timing; say so rather than test).",
+  ref="DESIGN.md §4 C16"),
+ "C19": dict(
+  technique="static analysis: path simulation (skip-verify paired with a callback), value-provenance rules on the verification callback (leaf, roots, DNS name, intermediates, time), struct-literal rules on the bundle config, Clone-only use inventory, path simulation of Connect with the TLS decision bound",
+  text="Decided: InsecureSkipVerify is set only where a VerifyPeerCertificate callback is installed on every path; that callback can return nil only as the result of x509 Verify on the parsed leaf with Roots from a RootCAs pool, DNSName = bundle host, Intermediates only from the presented chain, CurrentTime zero or time.Now() evaluated inside the callback, parse errors returned; the per-node SNI is the serverName parameter (contact point / host id); the bundle config has checked bundle-CA roots, the bundle key pair and ServerName = bundle host and is only ever Clone()d; Connect hands only a handshaken tls.Client to the CQL connection on TLS endpoints and aborts on a handshake error.",
+  note="Trusted: crypto/x509, crypto/tls, the clock. Not covered: certificate contents.",
+  ref="DESIGN.md §4 C19"),
 }
 
 NOT_YET = "check not built yet in this round (see DESIGN.md §4 for the planned structural rules)"
